@@ -114,3 +114,9 @@ claim("C01",
       "Static necessary conditions of 'an exported keystore restores the same wallet': every file field import consumes is filled by export from the durable key it stands for and stored back under that key; the external and internal counters keep their branch through fetchChildNum, the file, putLastIndex/updateChildNum and memory, and each of import's two re-derivation loops derives from, labels and persists its own branch; nothing is stored unless the scrypt digest check with the caller's old passphrase and both secretbox opens succeeded; every consumed field is authenticated (4 known findings: Remark, Account, ExternalChildNum, InternalChildNum are not — D19, reproduced); a present keystore id stops the import before any write and the bucket is created fresh; delete removes bucket content, the bucket under its own name and the account id on every committing path.",
       "Trusted: go/ssa, secretbox authenticity, scrypt digest check. NOT decided: equality of the re-derived addresses/keys as values (BIP32 arithmetic) for all seeds and counts; signing after unlock (C05-BIND); 'rejected import leaves the wallet unchanged' is C12's single-transaction rule.",
       "DESIGN.md §4 C01")
+
+claim("C04",
+      "information-flow (taint) rule on backward slices: named sources, Encrypt/declassifier cuts, field-based heap, call-site-resolved parameters; key-hierarchy typestate for every Encrypt; use-after-Zero typestate",
+      "Decides the code-shape half of 'no secret is stored, exported or logged in the clear', for every path: the value of every Bucket.Put of the keystore package, every argument of every log call in the wallet/API/server/command packages (including whole request or key objects printed through interface{}), every formatted message of the wallet packages, every field export writes into the keystore file, every API file write and response field has no secret source (passphrase/seed parameters and request fields, key objects, generator results, plaintext of private-hierarchy Decrypt) in its backward slice once cut at Encrypt and the public-key/hash declassifiers; every Encrypt of a secret uses a key of the protecting hierarchy (inferred from how the key was made, checked at every call site of key-typed parameters); and no encrypting key can have been zeroed before use.",
+      "Trusted: go/ssa, declassifier table, source naming at exported entry points. Assumes external error values carry no argument bytes. NOT decided: that ciphertext hides plaintext; bytes leveldb writes beyond what Put receives; map-element contents held in struct fields; flows through reflection or the chain library.",
+      "DESIGN.md §4 C04")
